@@ -179,8 +179,15 @@ func (c *Check) runAll() *checkResult {
 	}
 
 	known := loadKnown(filepath.Join(e.VerifDir, "known_findings.txt"))
-	// reference-level violations (no simulation needed)
+	// reference-level violations (no simulation needed to see them); where the
+	// simulator reproduces the history, the ordinary minimised replay is produced
 	for _, rv := range c.RefViol {
+		if v, session := c.refToSession(rv); v != nil {
+			pr := &ProcResult{Session: &workerlib.Session{Mode: "explicit", Explicit: session}, Violations: []*workerlib.Violation{v}}
+			c.Agg.Violations = append(c.Agg.Violations, &foundViolation{V: v, Proc: pr, Stage: "reference"})
+			c.Log("reference disagreement reproduced under the simulator as a %d-call history", len(session[0].Tasks[0]))
+			break
+		}
 		rp := &Replay{Property: "C05", Kind: "reference-disagreement", Signature: "refdisagree", Summary: rv.What, Seed: c.Seed, TreeDigest: e.TreeDig,
 			SiteDigest: e.Report.SiteDigest, Ref: rv, HowTo: "cd /verif && ./run C05 --replay <this file>"}
 		in, _ := unb64(rv.Input)
